@@ -962,8 +962,12 @@ def _analyze_zipfile_for_import(zipfile, project, schema):
             Parsed state point contents.
 
         """
-        # Must use forward slashes, not os.path.sep.
-        fn_statepoint = path + "/" + Job.FN_STATE_POINT
+        # Must use forward slashes, not os.path.sep. The root of the archive
+        # ('') may itself be a job directory.
+        if path:
+            fn_statepoint = path + "/" + Job.FN_STATE_POINT
+        else:
+            fn_statepoint = Job.FN_STATE_POINT
         if fn_statepoint in names:
             return json.loads(zipfile.read(fn_statepoint).decode())
 
@@ -1062,7 +1066,8 @@ def _tarfile_path_join(path, fn):
 
     """
     path = path.rstrip("/")
-    return path + "/" + fn
+    # The root of the archive ('') may itself be a job directory.
+    return path + "/" + fn if path else fn
 
 
 def _analyze_tarfile_for_import(tarfile, project, schema, tmpdir):
